@@ -340,8 +340,15 @@ def do_history(case, rec, rng):
                     cand = f32(rng.choice(prior) + 0.3 * tolv)
                     if all(abs(cand - x) > 3 * tolv for i2, x in enumerate(ds) if i2 != j):
                         ds[j] = cand
-                vals = np.array([g_depth(k, x) for x in ds], dtype=float)
-                hole.add_data({name: {"depth": np.array(ds, dtype=float), "values": vals.copy()}}, **kw)
+                if rng.random() < 0.25:
+                    # remarks at depths: text
+                    vals = np.array([f"at {x:g} " + "y" * (i % 3) for i, x in enumerate(ds)])
+                    name = "t" + name
+                    hole.add_data({name: {"depth": np.array(ds, dtype=float), "values": vals.copy(), "type": "text"}}, **kw)
+                    rec.see("text-depth-logs")
+                else:
+                    vals = np.array([g_depth(k, x) for x in ds], dtype=float)
+                    hole.add_data({name: {"depth": np.array(ds, dtype=float), "values": vals.copy()}}, **kw)
                 given_depth[name] = dict(zip(ds, vals.tolist()))
                 ops.append(("depth", n))
             else:
@@ -412,6 +419,16 @@ def judge_hole(rec, hole, collar, rows, given_depth, given_int, tol, where):
                 rec.fail("C18.value", op=where, cls="Drillhole", attr="missing-data", detail=f"depth data {name} disappeared")
                 continue
             vals = dd[0].values
+            if isinstance(vals, np.ndarray) and vals.dtype.kind in "USO":
+                tv_ = [x.decode() if isinstance(x, bytes) else str(x) for x in vals.tolist()] + [""] * max(n - len(vals), 0)
+                matched = set()
+                for dgiven, v in table.items():
+                    idx = [i for i in range(n) if not np.isnan(depths[i]) and abs(depths[i] - dgiven) <= tol * 1.0001 + 1e-9 and tv_[i] == v]
+                    rec.check("C18.value", len(idx) >= 1, op=where, cls="Drillhole", attr="depth-text", detail=f"{name}: text {v!r} given at depth {dgiven} is not found at that depth (DEPTH={np.round(depths, 4).tolist()}, values={tv_})")
+                    matched |= set(idx[:1])
+                stray = [i for i in range(n) if i not in matched and tv_[i] not in ("", "nan", "None")]
+                rec.check("C18.value", not stray, op=where, cls="Drillhole", attr="stray-text", detail=f"{name}: text at vertices {stray[:4]} that was never given there (values={tv_}, DEPTH={np.round(depths, 3).tolist()})")
+                continue
             if vals is not None and len(vals) < n:
                 vals = np.r_[vals, np.full(n - len(vals), np.nan)]  # trailing entries not yet materialised = no data
             if vals is None or len(vals) != n:
